@@ -231,12 +231,20 @@ impl Prog {
                 s
             }
             Prog::Chain(operands, ops) => {
-                let mut s = operands[0].operand();
+                // an operand that is a prefix operator applied to a literal or a name is written WITHOUT
+                // parentheses (`- 2 op 3`): a prefix operator binds tighter than every infix operator
+                fn chain_operand(e: &Expr) -> String {
+                    match e {
+                        Expr::Un(op, inner) if matches!(**inner, Expr::Lit(_) | Expr::Ref(_)) => format!("{} {}", op, inner.render()),
+                        _ => e.operand(),
+                    }
+                }
+                let mut s = chain_operand(&operands[0]);
                 for (i, op) in ops.iter().enumerate() {
                     s.push(' ');
                     s.push_str(op);
                     s.push(' ');
-                    s.push_str(&operands[i + 1].operand());
+                    s.push_str(&chain_operand(&operands[i + 1]));
                 }
                 s
             }
